@@ -102,9 +102,51 @@ def grid_list(n, L):
 def nsteps(epochs, tf):
     return sum(T / (tf / (0.25 / nu)) for nu, T in epochs)
 
+def coalescent_case(chk, dadi, n, ep, pts, log, as_func):
+    L = len(pts)
+    th = coalescent_sfs(n, ep)
+    inp = dict(n=n, epochs=ep, pts=pts, log=log, as_func=as_func)
+    key = 'coalescent:%s:%s:grids=%d' % ('log' if log else 'lin', 'func' if as_func else 'const', L)
+    chk.l3((key, len(ep), n))
+    try:
+        fine = sfs_model(dadi, n, ep, pts, 1e-4, log=log, as_func=as_func)
+    except Exception as e:
+        chk.fail(key + ':raises:' + type(e).__name__, 'model raises %r' % (e,), inp); return 0.0
+    if not np.all(np.isfinite(fine)) or np.any(fine < 0):
+        chk.fail(key + ':nonfinite', 'spectrum has non-finite or negative entries', inp); return 0.0
+    err = float(np.max(np.abs(fine - th) / th))
+    if err > 0.015:
+        i = int(np.argmax(np.abs(fine - th) / th)) + 1
+        suffix = ':1.5pct'
+        # Known shortfall of the unchanged tree (F-01a, known_findings.json): right after an expansion by a factor >= 50 the step rule
+        # dt ~ nu takes the whole new epoch in a few dozen steps, and the transient inherited from the bottleneck is under-resolved:
+        # 1.6-2.4 % at a tenth of the default step (pure time-step error: it does not move with the grid and falls with dt).
+        # Such a case gets its own key so that any other way of exceeding 1.5 % is still reported as a violation.
+        steps = [T / (1e-4 * 4 * nu) for nu, T in ep]
+        trans = [k for k in range(1, len(ep)) if ep[k][0] / ep[k - 1][0] >= 50 and steps[k] <= 64]
+        if trans and err <= 0.03:
+            try:
+                finer = sfs_model(dadi, n, ep, pts, 1e-5, log=log, as_func=as_func)
+                err2 = float(np.max(np.abs(finer - th) / th))
+            except Exception:
+                err2 = err
+            inp = dict(inp, err_at_tenth=err, err_at_hundredth=err2, steps_per_epoch=steps)
+            if err2 <= err / 3 and err2 <= 0.015:
+                suffix = ':1.5pct:transient-after-expansion:below-3pct'
+        chk.fail(key + suffix, 'entry %d is %.4g, exact coalescent expectation %.4g (%.2f%% off) at a tenth of the default step, pts=%s' % (i, fine[i-1], th[i-1], 100 * err, pts), inp)
+    chk.sample(dict(clause='coalescent', n=n, epochs=ep, pts=pts, log=log, as_func=as_func, max_rel_err=err))
+    return err
+
+# recorded inputs of listed findings (known_findings.json): re-evaluated on every run, so the KNOWN-FINDING line is printed while the
+# finding is open and a change of its behaviour (worse than 3 %, or no longer time-step dominated) is reported as a violation
+CORPUS = [dict(n=20, epochs=[(1.9712753538489214, 0.009960484102365889), (0.07120099208428853, 0.6906479947035272),
+                             (12.881385478601226, 0.13278337171903462)], pts=[400], log=True, as_func=False)]
+
 def coalescent_convergence(chk, ctx, rng, n_cases, tier):
     dadi = ctx['dadi']
     worst = 0.0
+    for c in CORPUS:
+        coalescent_case(chk, dadi, c['n'], c['epochs'], c['pts'], c['log'], c['as_func'])
     for it in range(n_cases):
         n = int(rng.integers(2, 31)) if tier == 'thorough' or it % 3 else int(rng.integers(2, 13))
         ep = random_history(rng)
@@ -115,22 +157,7 @@ def coalescent_convergence(chk, ctx, rng, n_cases, tier):
         L = [3, 1, 2, 4, 3, 6, 5, 1][(it + it // 8) % 8]
         pts = grid_list(n, L)
         log = bool(it % 2); as_func = bool((it // 2) % 2)
-        th = coalescent_sfs(n, ep)
-        inp = dict(n=n, epochs=ep, pts=pts, log=log, as_func=as_func)
-        key = 'coalescent:%s:%s:grids=%d' % ('log' if log else 'lin', 'func' if as_func else 'const', L)
-        chk.l3((key, len(ep), n))
-        try:
-            fine = sfs_model(dadi, n, ep, pts, 1e-4, log=log, as_func=as_func)
-        except Exception as e:
-            chk.fail(key + ':raises:' + type(e).__name__, 'model raises %r' % (e,), inp); continue
-        if not np.all(np.isfinite(fine)) or np.any(fine < 0):
-            chk.fail(key + ':nonfinite', 'spectrum has non-finite or negative entries', inp); continue
-        err = float(np.max(np.abs(fine - th) / th))
-        worst = max(worst, err)
-        if err > 0.015:
-            i = int(np.argmax(np.abs(fine - th) / th)) + 1
-            chk.fail(key + ':1.5pct', 'entry %d is %.4g, exact coalescent expectation %.4g (%.2f%% off) at a tenth of the default step, pts=%s' % (i, fine[i-1], th[i-1], 100 * err, pts), inp)
-        chk.sample(dict(clause='coalescent', n=n, epochs=ep, pts=pts, log=log, as_func=as_func, max_rel_err=err))
+        worst = max(worst, coalescent_case(chk, dadi, n, ep, pts, log, as_func))
     chk.stats['coalescent_worst_rel_err'] = worst
 
 def dt_order(chk, ctx, rng, n_cases):
@@ -316,4 +343,8 @@ def run(chk, ctx):
     stationarity(chk, ctx, rng, 5 if q else 30)
 
 def replay(chk, ctx, data):
-    run(chk, ctx)
+    inp = data.get('input') or {}
+    if str(data.get('key', '')).startswith('coalescent:') and 'epochs' in inp:
+        coalescent_case(chk, ctx['dadi'], int(inp['n']), [tuple(e) for e in inp['epochs']], list(inp['pts']), bool(inp['log']), bool(inp['as_func']))
+    else:
+        run(chk, ctx)
